@@ -20,7 +20,8 @@ EXPLANATION = (
     "the unwrap on 'second largest probability' in build_table_from_counts is protected: every caller passes a "
     "histogram slice with at least two entries; the matcher interface (Matcher, Sequence, "
     "FrameCompressor::new_with_matcher) is effectively public and the generic compress path reaches the same "
-    "compress_block as the built-in matcher; the explicit panic constructs reachable from compress() are exactly the "
+    "compress_block as the built-in matcher; the frame header advertises at least the window the matcher reports "
+    "(shared with C14.layout.frame-header-writer); the explicit panic constructs reachable from compress() are exactly the "
     "reviewed sites, each classified matcher-contract / API-misuse / level-unimplemented / arithmetic. "
     "Not decided: non-panic and round-trip for all matchers and parses (runtime values).")
 ASSUMPTIONS = ["a well-behaved matcher respects the documented contract (spaces <= 128 KiB, match length >= 3, literal runs tile the block)",
@@ -32,6 +33,26 @@ FC = c02.FC
 ENC = c14.ENC
 
 PANIC_REASONS = {
+    "Matcher>::commit_space|partial:ilog2": "arith: argument is max(1024, ..) >= 1024",
+    "Matcher>::commit_space|partial:remove": "total: the index comes from enumerate() over the same pool, nothing removed in between",
+    "BitWriter::write_bits_64|partial:ilog2": "guarded: under `bits > 0` (and debug-only)",
+    "compressed::encode_offset|partial:ilog2": "arith: argument is offset + 3 >= 3 (matcher contract: offsets within the window, far below 2^32)",
+    "compressed::encode_sequences|partial:ilog2": "arith: table_size = 1 << acc_log >= 1",
+    "FrameHeader::serialize|partial:ilog2": "total: next_power_of_two() >= 1",
+    "MatchGenerator::add_suffixes_till|partial:windows": "total: constant window length 5",
+    "MatchGenerator::mismatch_chunks|partial:chunks_exact": "total: const generic chunk length, instantiated with 8 only",
+    "MatchGenerator::reserve|partial:remove": "arith: window_size + amount > max >= amount implies window_size > 0, so the window has an entry",
+    "MatchGenerator::reserve|partial:drain": "arith (debug builds only): concat_window is the concatenation of the window entries, at least as long as the removed one",
+    "MatchGenerator::reset|partial:drain": "total: full range",
+    "SuffixStore::with_capacity|partial:ilog2": "arith: capacity >= 1024 at the only call site (commit_space)",
+    "FSETable::acc_log|partial:ilog2": "arith: table_size = 1 << acc_log >= 1 for every built table",
+    "FSETable::write_table|partial:ilog2": "arith: probability_sum - probability_counter + 1 >= 2 under the loop condition",
+    "fse_encoder::build_table_from_counts|partial:ilog2": "guarded: follows assert!(sum > 0)",
+    "fse_encoder::build_table_from_probabilities|partial:ilog2": "guarded: prob <= 0 skips the iteration",
+    "HuffmanEncoder::encode4x|partial:div_ceil": "total: constant divisor 4",
+    "HuffmanEncoder::write_table|partial:chunks_exact": "total: constant chunk length 2",
+    "HuffmanTable::build_from_counts|partial:ilog2": "arith: distribute_weights returns one weight per used symbol, >= 2 of them (C16.dom.huffman-two-symbols)",
+    "huff0_encoder::redistribute_weights|partial:ilog2": "arith: sum of 1 << weight over a non-empty weight list is >= 1",
     "BitWriter::append_bytes|panic": "arith: raw literals are appended right after a 24-bit (3-byte) header",
     "BitWriter::change_bits_64|assert": "arith: the size placeholder lies entirely in flushed bytes before the current position",
     "BitWriter::dump|panic": "arith: the frame descriptor is exactly 8 bits (C14 slot widths)",
@@ -68,7 +89,8 @@ PANIC_REASONS = {
     "HuffmanTable::build_from_counts|assert": "arith: byte histogram has 256 entries",
     "HuffmanTable::build_from_counts|unwrap": "arith: weights non-empty",
     "HuffmanTable::build_from_weights|panic": "arith: internal consistency of generated weights",
-    "huff0_encoder::distribute_weights|assert": "arith: 2..=256 symbols",
+    "huff0_encoder::distribute_weights|assert": "at least 2 distinct literal bytes are established before Huffman coding is attempted "
+                                                "(C16.dom.huffman-two-symbols, finding F11); at most 256 byte values",
     "huff0_encoder::highest_bit_set|assert": "arith: positive argument",
 }
 
@@ -84,7 +106,7 @@ def _enc_fns(ctx):
 
 def _panics(ctx):
     crate = ctx.crate()
-    ps = INV.panics(crate, _enc_fns(ctx))
+    ps = INV.panics(crate, _enc_fns(ctx)) + INV.partial_calls(crate, _enc_fns(ctx))
     for x in ps:
         x["fn"] = H.short(x["fn"])
     return ps
@@ -181,6 +203,63 @@ def run(ctx):
                   "compress_block::sequence-translation", cb["file"], "reported sequences are translated field by field (offset + 3: no repeat codes)",
                   observed=f)
     ctx.guard(RA, "api", api)
+
+    RH2 = "C16.dom.huffman-two-symbols"
+
+    def two_symbols():
+        """HuffmanTable::build_from_data -> distribute_weights asserts >= 2 symbols: Huffman coding of the literals may
+        only be attempted when they contain two different byte values (a matcher can leave one repeated byte)."""
+        cb = ctx.hir(ENC + "::compress_block")
+        ix = hq.Index(cb)
+        sites = hq.calls_to(cb["body"], "compress_literals")
+        ctx.check(len(sites) == 1, RH2, "compress_block::one-call", cb["file"], "one compress_literals call site", observed=len(sites))
+        callers = sorted({p for p, c_, b_ in dom.callers_of(crate, "compressed::compress_literals")})
+        ctx.check(callers == [ENC + "::compress_block"], RH2, "compress_literals::callers", "", "compress_literals is only called from compress_block",
+                  observed=callers)
+        for s_ in sites:
+            lit = ix.canon(s_["args"][0])
+            ok = False
+            obs = []
+            for p_ in ix.path_conditions(s_):
+                if p_["kind"] != "if" or "expr" not in p_ or not p_.get("pos", True):
+                    continue
+                e = hq.peel(p_["expr"])
+                obs.append(p_["cond"][:120])
+                if e.get("k") == "MethodCall" and e["name"] == "any" and H.canon_path(H.callee(e) or "").endswith("Iterator::any"):
+                    r = hq.peel(e["recv"])
+                    cl = hq.peel(e["args"][0]) if e["args"] else {}
+                    if r.get("k") == "MethodCall" and r["name"] == "iter" and ix.canon(r["recv"]) == lit and cl.get("k") == "Closure":
+                        bd = hq.peel(cl["body"])
+                        if bd.get("k") == "Binary" and bd["op"] == "!=":
+                            ops = {ix.canon(bd["l"]), ix.canon(bd["r"])}
+                            ok = ok or ("%s[0]" % lit in ops and any(o.lstrip("@").startswith('"closure-arg"') for o in ops))
+            ctx.check(ok, RH2, "compress_block::two-distinct-literals-before-huffman", H.loc(cb, s_),
+                      "compress_literals must be dominated by a test that some literal differs from the first one "
+                      "(`literals.iter().any(|x| *x != literals[0])`): with a single repeated byte the table builder panics (F11)",
+                      observed=obs)
+    ctx.guard(RH2, "two_symbols", two_symbols)
+
+    RW = "C16.window"
+
+    def window():
+        """a user matcher may report any window_size(), and its offsets reach that far back: the frame header has to
+        advertise at least that much (same rule instances as C14's frame-header writer) and take it from the matcher."""
+        cb = ctx.hir(FC + "::compress")
+        lit = hq.struct_lits(cb["body"], "FrameHeader")
+        f = {x["name"]: H.show(hq.peel(x["e"])) for x in lit[0]["fields"]} if lit else {}
+        ctx.check(f.get("window_size") == "Option::Some(self.state.matcher.window_size())" and f.get("single_segment") == "false", RW,
+                  "compress::window-from-matcher", cb["file"], "the declared window is what the (user) matcher says it needs", observed=f)
+        start = len(ctx.obs)
+        c14_headers._frame(ctx, c14.SPEC)
+        keep = []
+        for o in ctx.obs[start:]:
+            if o.rule == "C14.layout.frame-header-writer":
+                o.rule = RW
+                keep.append(o)
+        ctx.obs[start:] = keep
+        ctx.notes[:] = [n for n in ctx.notes if "INFO latent" not in n]
+        ctx.floor(RW, len(keep), 10, "frame header writer obligations")
+    ctx.guard(RW, "window", window)
 
     RO = "C16.order.matcher-protocol"
 
